@@ -301,11 +301,15 @@ class Call(Statement, DataNode):
         # structure calls, but to implement properly we new a new kind of
         # AccessType that represents being called (USED but not READ, maybe
         # the same that we need for INQUIRY type attributes?)
-        for arg in self.arguments:
+        # A pure *subroutine* can still modify its intent(out/inout) arguments.
+        modified = self._pure_subroutine_modified_args()
+        for pos, arg in enumerate(self.arguments):
             if isinstance(arg, Reference):
                 # This argument is pass-by-reference.
                 sig, indices_list = arg.get_signature_and_indices()
-                var_accesses.add_access(sig, default_access, arg)
+                var_accesses.add_access(
+                    sig, AccessType.READWRITE if pos in modified
+                    else default_access, arg)
                 # Any symbols referenced in any index expressions are READ.
                 for indices in indices_list:
                     for idx in indices:
@@ -318,6 +322,41 @@ class Call(Statement, DataNode):
                 arg.reference_accesses(var_accesses)
         # Make sure that the next statement will be on the next location
         var_accesses.next_location()
+
+    def _pure_subroutine_modified_args(self):
+        '''
+        :returns: the positions of those arguments of this call that may be
+            modified although the called routine is pure: the call is a
+            statement (so the routine is a subroutine), its definition is in
+            the same Container and the corresponding dummy argument is not
+            intent(in). (Empty if the definition is elsewhere, TODO #446.)
+        :rtype: Set[int]
+        '''
+        # pylint: disable=import-outside-toplevel
+        from psyclone.psyir.nodes.container import Container
+        from psyclone.psyir.nodes.schedule import Schedule
+        from psyclone.psyir.symbols import ArgumentInterface
+        if not (self.is_pure and isinstance(self.parent, Schedule) and
+                isinstance(self.routine, Reference) and
+                self.routine.symbol.is_modulevar):
+            return set()
+        container = self.ancestor(Container)
+        routine = (container.get_routine_psyir(self.routine.name)
+                   if container else None)
+        if not routine:
+            return set()
+        dummies = routine.symbol_table.argument_list
+        modified = set()
+        for pos, name in enumerate(self.argument_names):
+            if name:
+                match = [dummy for dummy in dummies
+                         if dummy.name.lower() == name.lower()]
+            else:
+                match = dummies[pos:pos+1]
+            if match and (match[0].interface.access !=
+                          ArgumentInterface.Access.READ):
+                modified.add(pos)
+        return modified
 
     @property
     def routine(self):
